@@ -423,9 +423,11 @@ PLANS["C03"] = dict(
           "remove, append on all 45 standard header setters (framing headers excluded) and 7 custom names over a small hot working set so that operations collide; SetCookie with directive subsets; "
           "text/html/json/payload bodies set repeatedly, drop_content, without_content. Each history is (a) sent directly with the declared size read through the hook and (b) returned by a handler "
           "through Router::handle for GET and HEAD, serialised by the real send into an in-memory writer, re-parsed by an independent response parser and compared with a map model. "
-          "distinct_nontrivial = distinct abstract histories (op kinds per header, values as length classes) containing remove-then-set, append-after-set or a body replacement."),
-    quick=[R("c03", "rel", 120_000), R("c03", "miri", 160, shards=8, flags={"small": 1})],
-    thorough=[R("c03", "rel", 3_000_000), R("c03", "dbg", 400_000), R("c03", "asan", 600_000), R("c03", "miri", 3_200, shards=16, flags={"small": 1})],
+          "distinct_nontrivial = distinct abstract histories (op kinds per header, values as length classes) containing remove-then-set, append-after-set or a body replacement. "
+          "The in-memory engine sends every response through the hook's one-shot `send`; what the real session does around it (whatever it keeps per connection between responses) is observed by the "
+          "TCP engine (`c05tcp`: the real `howl` in a child process, keep-alive sequences of 2-520 requests whose responses grow and shrink, compared byte for byte with the in-memory session)."),
+    quick=[R("c03", "rel", 120_000), R("c05tcp", "rel", 800), R("c03", "miri", 160, shards=8, flags={"small": 1})],
+    thorough=[R("c03", "rel", 3_000_000), R("c03", "dbg", 400_000), R("c03", "asan", 600_000), R("c05tcp", "rel", 8_000), R("c03", "miri", 3_200, shards=16, flags={"small": 1})],
     floors={"quick": {"evaluations": 100_000, "distinct": 20_000, "long_histories": 100}, "thorough": {"evaluations": 3_000_000, "distinct": 300_000, "long_histories": 5_000}},
     assumptions=["independent table of the standard header names (RFC spelling)", "header values never contain CR/LF/NUL (the code documents that as the user's responsibility)",
                  "custom header names differ from each other and from standard names ignoring case", "framing of 1xx/304 responses is not judged beyond the header set (the statement is silent)",
@@ -765,12 +767,13 @@ PLANS["C18"] = dict(
           "arriving at the 1st poll, after one accepted connection and after two (30 schedules, enumerated completely); turns are forced through the H4 scheduling points, the realised order is "
           "read back from the log; (b) in-flight sessions: 0-6 connections whose handlers block on gates opened in a scripted order, idle keep-alive connections, connections arriving after the "
           "interrupt handler finished while the woken poll of the accept loop is held at its first scheduling point (so that accept is ready at the very poll that has to notice the interrupt: a "
-          "forced schedule), a handler that panics. Oracle over the event log (one sequence counter): progress in logical steps (handler finished and (poll returned Ready(None) or a wake of the task "
+          "forced schedule), a handler that panics; (c) queued session: on a current-thread runtime, the interrupt is delivered through the hook inside the very poll of the accept loop that accepted a connection "
+          "and spawned its session (second arrival at the first scheduling point within one poll of the task), so that the loop notices the interrupt while that session has not run a step: it is in flight all the same. Oracle over the event log (one sequence counter): progress in logical steps (handler finished and (poll returned Ready(None) or a wake of the task "
           "since its poll began), else lost wake-up), howl returns, and it returns after every handler_end of a session accepted before; nothing is served after the interrupt. "
           "distinct_nontrivial = distinct realised operation orders + distinct session completion orders."),
     quick=[R("c18", "rel", 18, shards=16)],
     thorough=[R("c18", "rel", 400, shards=16, flags={"repeats": 20}), R("c18", "tsan", 40, shards=16, flags={"repeats": 2}), R("c18", "dbg", 40, shards=16)],
-    floors={"quick": {"evaluations": 40, "distinct": 12, "interleaving_runs": 30, "interleavings_returned": 30, "session_scenarios_ok": 12, "late_arrival_forced_at_the_interrupted_poll": 3, "scenarios_started_with_sigint_ignored": 2, "scenarios_with_connection_churn": 2, "scenarios_with_an_upgraded_session_in_flight": 1, "churn_sessions_completed_before_the_interrupt": 40_000},
+    floors={"quick": {"evaluations": 40, "distinct": 12, "interleaving_runs": 30, "interleavings_returned": 30, "session_scenarios_ok": 12, "late_arrival_forced_at_the_interrupted_poll": 3, "scenarios_started_with_sigint_ignored": 2, "scenarios_with_connection_churn": 2, "scenarios_with_an_upgraded_session_in_flight": 1, "churn_sessions_completed_before_the_interrupt": 40_000, "queued_session_scenarios": 2},
             "thorough": {"evaluations": 1_000, "interleaving_runs": 600}},
     wall_limit={"quick": 600, "thorough": 3600},
     assumptions=["'always eventually' is restated as bounded progress: no lost wake-up state + return observed within 8 s after the race (10 s after the last session), and a scenario that misses that is re-run alone with 100 s of patience before it counts; a child that exceeds its watchdog (40 s / 160 s) is inconclusive",
